@@ -66,6 +66,7 @@ pub fn gen(seed: u64, _idx: u64, tier: Tier) -> Scenario {
             7 => { // move the clock relative to a timeout
                 let live: Vec<u64> = deadlines.iter().copied().filter(|d| *d > t).collect();
                 let target = if !live.is_empty() && r.chance(3, 4) { let d = *r.pick(&live); match r.below(3) { 0 => d.saturating_sub(*r.pick(&[1u64, 1_000_000])).max(t), 1 => d, _ => d + *r.pick(&[1u64, 1_000_000, 1_000_000_000]) } } else { t + *r.pick(&[10_000_000u64, 300_000_000, 1_200_000_000]) };
+                if r.chance(1, 8) { sc.steps.push(Step::RealStep { ns: *r.pick(&[-3_600_000_000_000i64, -700_000_000, 700_000_000, 3_600_000_000_000]) }); }
                 if target > t { sc.steps.push(Step::Turns { n: 1 }); sc.steps.push(Step::Adv { ns: target - t }); t = target; sc.steps.push(Step::Turns { n: 2 }); for x in blocked.iter_mut() { if r.chance(1, 2) { *x = false; } } }
             }
             8 => { if !blocked[c] { sc.steps.push(Step::Send { c, a: vec![b("DEL"), b(*r.pick(&keys))], split: vec![] }); } }
@@ -172,6 +173,7 @@ pub fn exec(sc: &Scenario) -> Outcome {
             }
             Step::Turns { n } => m.turns(*n),
             Step::Adv { ns } => { m.h.sim.advance(*ns); }
+            Step::RealStep { ns } => { m.h.sim.step_real(*ns); }
             Step::Close { c, .. } => { if m.cl.get(c).map_or(false, |x| x.blocked.is_some()) { m.h.count("probe_blocked_client_disconnected", 1); } m.turns(2); closed.insert(*c, true); m.close(*c); m.turns(2); }
             Step::Ctl { name, .. } if name == "check" => quiescent_checks(&mut m, &closed),
             _ => {}
@@ -184,7 +186,7 @@ pub fn exec(sc: &Scenario) -> Outcome {
 pub static DEF: CheckDef = CheckDef {
     id: "C13", level: "exploration", gen, exec,
     nontrivial: |o| o.counters.get("blocked_registered").copied().unwrap_or(0) >= 1 && o.counters.get("quiescent_checks").copied().unwrap_or(0) >= 1,
-    rule: "one run = 2-5 clients over 1-3 list keys: BLPOP/BRPOP on 1-3 keys with timeout 0 / 0.05..5 s, LPUSH/RPUSH of 1-3 unique elements, LPOP/RPOP, pipelined push+pop in one turn, pushes from MULTI/EXEC and from scripts, DEL, blocked clients disconnecting; requests of several clients are delivered before the same loop turn (the server's service order decides who wins), the virtual clock is moved to just before / at / after each timeout deadline; the sequential model follows the server's actual execution order, a served element must be the element at the proper end of the proper list at that moment and go to the earliest-blocked live waiter of that key (FIFO), nil never before the deadline and never for timeout 0; at quiescent points (two idle loop turns): no live blocked client whose key holds an element or whose deadline has passed (promptness/stranding), no registry entry (read-only accessor) for a client that is not blocked (residue), multiset(pushed) = multiset(returned to clients) + multiset(still in lists) (conservation); non-trivial = at least one client actually blocked and one quiescent check",
+    rule: "one run = 2-5 clients over 1-3 list keys: BLPOP/BRPOP on 1-3 keys with timeout 0 / 0.05..5 s, LPUSH/RPUSH of 1-3 unique elements, LPOP/RPOP, pipelined push+pop in one turn, pushes from MULTI/EXEC and from scripts, DEL, blocked clients disconnecting; requests of several clients are delivered before the same loop turn (the server's service order decides who wins), the virtual clock is moved to just before / at / after each timeout deadline; the sequential model follows the server's actual execution order, a served element must be the element at the proper end of the proper list at that moment and go to the earliest-blocked live waiter of that key (FIFO), nil never before the deadline and never for timeout 0; at quiescent points (two idle loop turns): no live blocked client whose key holds an element or whose deadline has passed (promptness/stranding), no registry entry (read-only accessor) for a client that is not blocked (residue), multiset(pushed) = multiset(returned to clients) + multiset(still in lists) (conservation); non-trivial = at least one client actually blocked and one quiescent check; the realtime clock is stepped by up to +-1 h at random points (timeouts are monotonic-clock deadlines and must not move)",
     quick_budget_s: 40.0, thorough_budget_s: 900.0, quick_max_runs: 1_000_000, thorough_max_runs: 100_000_000, exhaustive: false, exhaustive_after: |_| 0,
     real: REAL_WHOLE_SERVER, stub: STUB_WHOLE_SERVER, assumptions: ASSUME_COMMON,
 };
